@@ -35,6 +35,8 @@ OPTION_SETS = [
     ["do_not_emit_span", "no_warnings"],
     ["emit_rule_reference", "pest_optimizer = false", "box_only_if_needed"],
     ["emit_tagged_node_reference = true", "pest_optimizer = false", "no_warnings"],
+    ["truncate_getter_at_node_tag"],
+    ["no_warnings", "truncate_getter_at_node_tag = false", "emit_rule_reference"],
 ]
 
 VARIANTS = {
@@ -90,7 +92,7 @@ def prepare_roots():
 
 
 NEUTRAL_ENV = {"shim_seed": 0, "clock_base": 1700000000, "clock_step": 1000, "junk_env": 0, "junk_size": 0, "cwd": "root0", "root": 0,
-               "read_short": 0, "read_eintr": 0}
+               "read_short": 0, "read_eintr": 0, "stderr": "pipe"}
 
 
 def make_step(rng, goods, bads, texts, root_index):
@@ -121,6 +123,9 @@ def gen_run(seed, goods, bads, texts):
         env["read_short"] = rng.pick([1, 3, 7, 64, 1000])
     if rng.chance(1, 3):
         env["read_eintr"] = rng.pick([2, 3, 5])
+    if rng.chance(1, 3):
+        # where the generator's warnings go: a sink that accepts everything, or a full disk (every write fails with ENOSPC)
+        env["stderr"] = rng.pick(["devnull", "devfull"])
     heap = [0, 0] if rng.chance(1, 2) else [rng.below(200), 16 + rng.below(4000)]
     n = 1 + rng.below(7)
     steps = []
@@ -163,7 +168,13 @@ def exec_run(binary, shim, roots, run, dump_dir=None):
     json.dump(run["scenario"], open(scen, "w"))
     env, cwd = process_env(run["env"], roots, shim, log)
     cmd = [binary, "exec", "--scenario", scen] + (["--dump-dir", dump_dir] if dump_dir else [])
-    p = subprocess.run(cmd, env=env, cwd=cwd, stdout=subprocess.PIPE, stderr=subprocess.PIPE)
+    target = {"pipe": None, "devnull": "/dev/null", "devfull": "/dev/full"}[run["env"].get("stderr", "pipe")]
+    if target is None:
+        p = subprocess.run(cmd, env=env, cwd=cwd, stdout=subprocess.PIPE, stderr=subprocess.PIPE)
+    else:
+        with open(target, "w") as sink:
+            p = subprocess.run(cmd, env=env, cwd=cwd, stdout=subprocess.PIPE, stderr=sink)
+        p.stderr = b""
     steps = []
     for l in p.stdout.decode("utf-8", errors="replace").split("\n"):
         if l.startswith("STEP "):
@@ -338,7 +349,7 @@ def run(tier, seed):
     failing = {}
     counters_total = {}
     env_kinds = {"hash_seed_varied": 0, "clock_varied": 0, "junk_environment": 0, "manifest_root_relocated": 0, "cwd_changed": 0,
-                 "read_short_configured": 0, "read_eintr_configured": 0, "heap_ballast": 0, "non_main_thread_steps": 0, "fresh_thread_steps": 0,
+                 "read_short_configured": 0, "read_eintr_configured": 0, "stderr_is_full_disk": 0, "stderr_is_devnull": 0, "heap_ballast": 0, "non_main_thread_steps": 0, "fresh_thread_steps": 0,
                  "panicking_expansions": 0, "steps_after_a_panicking_expansion": 0, "repeated_expansions_in_one_process": 0}
     distinct = set()
     steps_total = 0
@@ -372,8 +383,10 @@ def run(tier, seed):
             env_kinds["cwd_changed"] += e["cwd"] != "root0"
             env_kinds["read_short_configured"] += e["read_short"] > 0
             env_kinds["read_eintr_configured"] += e["read_eintr"] > 0
+            env_kinds["stderr_is_full_disk"] += e["stderr"] == "devfull"
+            env_kinds["stderr_is_devnull"] += e["stderr"] == "devnull"
             env_kinds["heap_ballast"] += r["scenario"]["heap_pre"][0] > 0
-            env_class = (e["clock_base"] != NEUTRAL_ENV["clock_base"], e["junk_env"] > 0, e["root"], e["cwd"], e["read_short"], e["read_eintr"],
+            env_class = (e["clock_base"] != NEUTRAL_ENV["clock_base"], e["junk_env"] > 0, e["root"], e["cwd"], e["read_short"], e["read_eintr"], e["stderr"],
                          r["scenario"]["heap_pre"][0] > 0)
             prefix = ""
             panicked = False
